@@ -804,7 +804,16 @@ fn spawn_gc_worker(mut gc_rx: UnboundedReceiver<GCTask>, store: Store) {
             });
             match task {
                 GCTask::Remove(id) => {
-                    let _ = store.remove(&id);
+                    // Queued for a frame a read found expired. By the time the task runs an
+                    // import may have stored another frame under that id: only what is (still)
+                    // expired is collected.
+                    let expired = store.get(&id).is_some_and(|frame| match frame.ttl.as_ref() {
+                        Some(TTL::Time(ttl)) => is_expired(&frame.id, ttl),
+                        _ => false,
+                    });
+                    if expired {
+                        let _ = store.remove(&id);
+                    }
                 }
 
                 GCTask::CheckHeadTTL {
